@@ -7,7 +7,7 @@ def check(rep, tier):
     rep.run(rules_exact.run, rep, tier, rules_exact.CLAUSE_PROPS["C07"])
     rep.run(rules_exact.run, rep, tier, ("X-hess",), which="index")
     from contracts import rules_scalar
-    rep.run(rules_scalar.run, rep, tier, adjoint=True)
+    rep.run(rules_scalar.run, rep, tier, adjoint=True, second=True)
     from contracts import discipline
     rep.run(discipline.run_trace, rep, tier)
     from contracts import rules_numeric
